@@ -229,6 +229,12 @@ def check(ck):
                 if ex:
                     ck.ok("C13.4", label + " [no version marker]", "exempt: entry has no version to follow", q.loc(fi, n))
                     continue
+                # a site reached only when the entry HAS a "jsonrpc" member: the adapter is the server configuration itself
+                marked = any(g.nodes[d].kind == "branch" and g.nodes[d].polarity is True and dump(g.nodes[d].test) == "'jsonrpc' in %s" % fv.params[0]
+                             for d in dom[n.id])
+                if marked and t is not None and all(pred(a) for a in prov.alts(t)):
+                    ck.ok("C13.4", label + " [entry with a jsonrpc member]", "the server's own configuration", q.loc(fi, n))
+                    continue
             if fi is fd:
                 # _dispatch(method, params, config): `config or self.json_config`, callers pass the adapter
                 # `config or self.json_config` (also spelled `if not config: config = self.json_config`, which the normaliser
